@@ -346,6 +346,47 @@ class MeshTag(Op):
 
 
 @register
+class MeshRebuild(Op):
+    """A new mesh object constructed from an operand's own arrays (they may
+    be shared, they must not be written)."""
+    name = "mesh_rebuild"
+    out = "mesh"
+    weight = 1.0
+
+    def gen(self, rng, S):
+        m = S.pick(rng, "mesh", lambda x: x["cell"] != "wedge")
+        if m is None:
+            return None
+        mm = S.slots[m]
+        kinds = ["ctor", "ctor"]
+        if mm["order"] == 1 and mm["cell"] in ("tri", "quad", "tet", "hex"):
+            kinds.append("from_mesh-up")
+        if mm["order"] == 2:
+            kinds += ["from_mesh-down", "from_mesh-down"]
+        return {"mesh": ref(m), "kind": rng.choice(kinds)}
+
+    def meta(self, a, S):
+        src = a["mesh"]["ref"]
+        order = S.slots[src]["order"]
+        if a["kind"] == "from_mesh-up":
+            order = 2
+        elif a["kind"] == "from_mesh-down":
+            order = 1
+        return _mesh_meta(S, src, order=order, b=[], s=[])
+
+    def apply(self, W, a):
+        from skfem import mesh as skm
+        m = W[a["mesh"]["ref"]]
+        name = type(m).__name__
+        if a["kind"] == "ctor":
+            cls = getattr(skm, name[:-1] + "1")
+            return cls(m.p[:, :m.nvertices] if name.endswith("2") else m.p, m.t)
+        if a["kind"] == "from_mesh-up":
+            return getattr(skm, name[:-1] + "2").from_mesh(m)
+        return getattr(skm, name[:-1] + "1").from_mesh(m)
+
+
+@register
 class MeshConvert(Op):
     name = "mesh_convert"
     out = "mesh"
@@ -629,8 +670,8 @@ class MkBasis(Op):
         if rng.random() < 0.3:
             g = S.pick(rng, "mapping", lambda x: x["mesh"] == m)
         ekind = S.slots[e]["kind"]
-        io = rng.choice([None, None, 2, 3, 4])
-        if ekind == "global" and io is None:
+        io = rng.choice([None, None, 0, 1, 2, 3, 4])
+        if ekind == "global" and (io is None or io < 2):
             io = 4
         a = {"mesh": ref(m), "elem": ref(e), "kind": kind, "intorder": io,
              "sub": gen_subset(rng)}
